@@ -12,8 +12,8 @@
  *                            same events again
  *   wait                     one loop iteration (EVLOOP_ONCE|EVLOOP_NONBLOCK)
  *
- * Slot 0 lives at fd 20 and is idle; slot 1 lives at fd 70 (beyond select's first
- * fd_set allocation) and is readable, so the one-shot event is deleted by the
+ * Slot 0 lives at fd 20 and is idle; slot 1 lives at fd 64 (the first fd beyond select's
+ * initial 64-bit fd_set allocation) and is readable, so the one-shot event is deleted by the
  * loop itself.  Observation point: the --wrap'ed epoll_pwait2/poll/select
  * (vclock_prewait_hook): epoll's interest list is read from /proc/self/fdinfo,
  * poll/select give their arrays.  Every history ends with a wait. */
@@ -21,7 +21,7 @@
 
 #define NSLOT 2
 #define NT 7
-static const int slot_fd[NSLOT] = { 20, 70 }, slot_peer[NSLOT] = { 21, 71 };
+static const int slot_fd[NSLOT] = { 20, 64 }, slot_peer[NSLOT] = { 21, 65 };
 static const struct { short ev; const char *name; int et; } T[NT] = {
 	{ EV_READ | EV_PERSIST, "R", 0 }, { EV_WRITE | EV_PERSIST, "W", 0 }, { EV_READ | EV_WRITE | EV_PERSIST, "RW", 0 },
 	{ EV_READ | EV_CLOSED | EV_PERSIST, "RC", 0 }, { EV_READ, "R1", 0 },
